@@ -40,6 +40,8 @@ func main() {
 		famC10(g, o, *n, *thorough)
 	case "c11":
 		famC11(g, o, *n, *thorough)
+	case "c13":
+		famC13(g, o, *n, *thorough)
 	case "c04":
 		famC04(g, o, *n, *thorough)
 	case "c03":
